@@ -39,6 +39,11 @@ type c19Proc struct {
 	N     int    `json:"n,omitempty"`     // exit code (End=exit)
 	Sig   string `json:"sig,omitempty"`   // signal the script sends to itself (End=sig)
 	PreMs int    `json:"pre,omitempty"`   // sleep before the end action
+	// Pipe: stdout/stderr are handed to the supervisor as plain io.Writers (not files), as the emulator does for runtime
+	// and extension logs: os/exec then copies through a pipe that forked children inherit. KidMs: how long the children
+	// sleep in that case (they hold the pipe; the exit event legitimately waits for them).
+	Pipe  bool `json:"pipe,omitempty"`
+	KidMs int  `json:"kidMs,omitempty"`
 }
 
 type c19Op struct {
@@ -58,6 +63,19 @@ var c19Sigs = map[string]int32{"KILL": 9, "SEGV": 11, "TERM": 15, "ABRT": 6, "US
 
 func c19Name(i int) string { return fmt.Sprintf("p%d", i) }
 
+// c19Sink is an io.Writer that is not an *os.File
+type c19Sink struct {
+	mu sync.Mutex
+	n  int
+}
+
+func (w *c19Sink) Write(b []byte) (int, error) {
+	w.mu.Lock()
+	w.n += len(b)
+	w.mu.Unlock()
+	return len(b), nil
+}
+
 func (p c19Proc) kind() string {
 	s := "loop"
 	switch p.End {
@@ -75,6 +93,9 @@ func (p c19Proc) kind() string {
 	if p.Kids > 0 {
 		s = "fork+" + s
 	}
+	if p.Pipe {
+		s = "pipe+" + s
+	}
 	return s
 }
 
@@ -91,6 +112,10 @@ func (p c19Proc) script(dir, name string) string {
 	}
 	if p.Kids > 0 {
 		for i := 0; i < p.Kids; i++ {
+			if p.Pipe && p.KidMs > 0 {
+				fmt.Fprintf(&b, "sleep %.2f & k%d=$!; ", float64(p.KidMs)/1000, i)
+				continue
+			}
 			fmt.Fprintf(&b, "sleep 100 & k%d=$!; ", i)
 		}
 		b.WriteString("echo")
@@ -613,7 +638,11 @@ func (r *c19Run) do(op c19Op, sn c19Snap, conc bool) {
 	case "exec":
 		p := r.c.Procs[op.P]
 		name := c19Name(op.P)
-		err := r.sup.Exec(ctx, &model.ExecRequest{Name: name, Domain: "runtime", Path: "/bin/sh", Args: []string{"-c", p.script(r.dir, name)}})
+		req := &model.ExecRequest{Name: name, Domain: "runtime", Path: "/bin/sh", Args: []string{"-c", p.script(r.dir, name)}}
+		if p.Pipe {
+			req.StdoutWriter, req.StderrWriter = &c19Sink{}, &c19Sink{}
+		}
+		err := r.sup.Exec(ctx, req)
 		r.mu.Lock()
 		r.ps[op.P].execDone, r.ps[op.P].execErr = true, err
 		r.mu.Unlock()
@@ -1214,6 +1243,12 @@ func c19ProcGen(t *rapid.T, label string) c19Proc {
 	if p.End != "loop" {
 		p.PreMs = rapid.SampledFrom([]int{0, 0, 10, 20, 40, 80}).Draw(t, label+".pre")
 	}
+	// a third of the processes log through a pipe (the emulator's own arrangement); a leader that leaves children behind
+	// then leaves them holding that pipe for a while
+	p.Pipe = rapid.SampledFrom([]bool{false, false, true}).Draw(t, label+".pipe")
+	if p.Pipe && p.Kids > 0 && p.End != "loop" {
+		p.KidMs = rapid.SampledFrom([]int{250, 400, 600}).Draw(t, label+".kidms")
+	}
 	return p
 }
 
@@ -1354,6 +1389,12 @@ func c19Fixed() []c19Case {
 		{Procs: []c19Proc{fork}, Steps: [][]c19Op{s(c19Op{K: "exec"}, c19Op{K: "kill", Ms: 5000}, c19Op{K: "term"})}},
 		// leader leaves its children behind
 		one(c19Proc{Kids: 2, End: "exit", N: 4, PreMs: 10}, s(await), s(kill)),
+		// ... while they still hold the log pipe: the status reported is still the leader's
+		one(c19Proc{Kids: 1, End: "exit", N: 0, Pipe: true, KidMs: 400}, s(await), s(kill)),
+		one(c19Proc{Kids: 2, End: "exit", N: 6, PreMs: 10, Pipe: true, KidMs: 600}, s(await)),
+		one(c19Proc{Kids: 1, End: "sig", Sig: "SEGV", Pipe: true, KidMs: 250}, s(await)),
+		one(c19Proc{End: "exit", N: 0, Pipe: true}, s(await)),
+		one(c19Proc{Kids: 2, End: "loop", Pipe: true}, s(kill)),
 	}
 	// eight processes at once, all ended together
 	var many c19Case
